@@ -455,6 +455,8 @@ pub struct Seen {
     /// 1 when the request is the follow-up of a redirect (its query carries hop=1)
     pub hop: u8,
     pub user_agent: Option<String>,
+    /// value of the TE header as received (`te: trailers` is the one form that is legal over HTTP/2 too)
+    pub te: Option<String>,
 }
 
 #[derive(Default)]
@@ -516,6 +518,7 @@ pub async fn handle(ctx: HandlerCtx, conn: u32, mut req: http::Request<hyperdriv
             problem: None,
             hop: if req.uri().query().map(|q| q.split('&').any(|kv| kv == "hop=1")).unwrap_or(false) { 1 } else { 0 },
             user_agent: req.headers().get(http::header::USER_AGENT).and_then(|v| v.to_str().ok()).map(|s| s.to_string()),
+            te: req.headers().get(http::header::TE).and_then(|v| v.to_str().ok()).map(|s| s.to_string()),
         });
         log.seen.len() - 1
     };
